@@ -193,6 +193,7 @@ func init() {
 
 var c20Pool = []string{"$a + 1", "[$a + 1, $a]", "[$a + $a, $a, $b]", "$a", "$a = 5", "$a = x + 1", "$a = 7, $a", "x", "this.x", "k", "[x, $a, k]", "$b = $a", "[$a, $b]", "this.$a", "$a = $a", "$b = '2024-01-02T03:04:05Z', $b", "[k, x, __v]", "$__v = x, [$__v, __v]",
 	// locals keep every digit: integers beyond 2^53 and their successors
+	"$a = [x, 1]", "$a = [1, k]", "$b = [$a, x]", "$a = [x, 1], $a = [k], $a", // locals holding lists, re-bound to other lists
 	"$a = 7, this.$a", "$b = x, [this.$b, $b, this.x]", "$a = $a, this.$a",
 	"$a = 9007199254740993", "$b = $a + 1, [$a, $b, $a == $b]", "$a = 1234567890123456789, $a + 0", "[$a == 9007199254740993, $a == 9007199254740992]"}
 
@@ -282,7 +283,7 @@ func TestC20Exhaustive(t *testing.T) {
 
 // TestC20Random: longer histories with the full formula pool.
 func TestC20Random(t *testing.T) {
-	run := h.Begin("C20", "random", "rapid: histories of 1-14 operations drawn from the same operation kinds with random keys {x, k, $a, $b, __v, $__v}, random integer values (1 in 5 beyond 2^53) or strings that look like timestamps / numbers / keywords, and the 25-formula pool (locals are entries of the data map: also read back through this.$name within the same evaluation); same oracle; non-trivial as in the exhaustive part; distinct by history")
+	run := h.Begin("C20", "random", "rapid: histories of 1-14 operations drawn from the same operation kinds with random keys {x, k, $a, $b, __v, $__v}, random integer values (1 in 5 beyond 2^53) or strings that look like timestamps / numbers / keywords, and the 29-formula pool (locals are entries of the data map: also read back through this.$name within the same evaluation); same oracle; non-trivial as in the exhaustive part; distinct by history")
 	defer run.End(t)
 	h.RapidSetup(h.N(6000, 2000000), "c20rand")
 	rapid.Check(t, func(rt *rapid.T) {
